@@ -102,20 +102,24 @@ def bounded_contract(q, size_sets, note=""):
             span = max([v for v in sizes.values() if isinstance(v, int)] + [3]) + 1
             for ob in obs:
                 cache, table, keep = {}, {}, []
-                sol = z3.Solver()
-                sol.set("timeout", 20000)
+                asserts = []
                 for h in list(ob.hyps) + plan_axioms:
-                    sol.add(smt.abstract_lambdas(smt.expand_concrete(z3.simplify(h), cache, True, span), table, keep)
-                            if smt._has_quantifier(h) or smt._mentions_decl([h], "u_sum") else h)
+                    asserts.append(smt.abstract_lambdas(smt.expand_concrete(z3.simplify(h), cache, True, span), table, keep)
+                                   if smt._has_quantifier(h) or smt._mentions_decl([h], "u_sum") else h)
                 g = smt.expand_concrete(z3.simplify(ob.goal), cache, True, span)
-                sol.add(z3.Not(g))
-                r = sol.check()
-                if r == z3.sat and ob.kind == "model-limit":
+                asserts.append(z3.Not(g))
+                # in a child process with the budget counted in its CPU time (like every other solver call)
+                # (heavy-tailed running times: a few restarts with other seeds instead of one long attempt)
+                for seed_ in (0, 7, 13, 21):
+                    r, model_, _why = smt._hard_check(asserts, 15000, seed_, rep.leaves)
+                    if r != "unknown":
+                        break
+                if r == "sat" and ob.kind == "model-limit":
                     und.append(ob.name + " (limit of the array model: possibly negative index)")
-                elif r == z3.sat:
-                    ob.verdict, ob.model = "refuted", smt.extract_model(sol.model(), rep.leaves)
+                elif r == "sat":
+                    ob.verdict, ob.model = "refuted", model_
                     bad.append(ob)
-                elif r != z3.unsat:
+                elif r != "unsat":
                     und.append(ob.name)
             res["seconds"] = round(time.time() - t0, 2)
             if bad:
